@@ -31,7 +31,7 @@ PROPS = {
                 "mismatch, complement, Dna->Iupac conversion from offset slices; distinct = distinct line",
     },
     "C20": {
-        "modules": ["BioSeq.Props.C20"],
+        "modules": ["BioSeq.Props.C20", "BioSeq.Props.Invariants"],
         "rule": "masking op lines: every symbol of both masked codecs under mask/unmask/to_mask/to_unmask, twice, composed with comp; sequences whose 5-bit symbols straddle "
                 "64-bit words (lengths 12,13,14,26,39,52 in quick, 0..55 thorough) incl. owned copies of offset slices, compositions with rev/revcomp, random values; "
                 "symbol tables extracted exhaustively and decided in Lean; distinct = distinct line",
@@ -72,7 +72,7 @@ PROPS = {
                 "patterns + random otherwise; every fitting K (sampled in quick) x usize/u64/u128 x 7 codecs; distinct = distinct line",
     },
     "C02": {
-        "modules": ["BioSeq.Props.C02"],
+        "modules": ["BioSeq.Props.C02", "BioSeq.Props.Invariants"],
         "rule": "equality/hash op lines: 11 Seq/SeqSlice pairings x operands at independent bit offsets x {equal, one symbol changed (random/first/last), "
                 "proper prefix, proper suffix, longer, empty}, hash events of slices and owned copies (recording Hasher), == &str against own/other text, "
                 "HashMap<Seq,_>::get(&SeqSlice); k-mers of every fitting K (sampled in quick) x usize/u64/u128: hash vs slice hash, ==SeqSlice/&SeqSlice/Seq/&str/Kmer, "
@@ -85,7 +85,7 @@ PROPS = {
                 "bit-op'd), from_raw with every count 0..capacity+2 and overflowing counts, from_raw of random word arrays; 7 codecs; distinct = distinct line",
     },
     "C06": {
-        "modules": ["BioSeq.Props.C06"],
+        "modules": ["BioSeq.Props.C06", "BioSeq.Props.Invariants"],
         "rule": "edit op lines: complete enumeration of edit histories of length <= 2 (quick) / 3 (thorough) over 12 ops on short DNA sequences; every edit with "
                 "in-bounds arguments on sequences around word boundaries for 7 codecs, argument slices at every reachable bit offset, all 15 RangeBounds forms of remove, "
                 "out-of-bounds arguments; random histories (depth <= 12, up to 200 symbols) from every production route incl. clones, with raw image; distinct = distinct line",
@@ -101,7 +101,7 @@ PROPS = {
                 "min/max/sort over a sequence's k-mers, Ord on owned sequences of equal and unequal lengths; the 5 Ord codecs; distinct = distinct line",
     },
     "C07": {
-        "modules": ["BioSeq.Props.C07"],
+        "modules": ["BioSeq.Props.C07", "BioSeq.Props.Invariants"],
         "rule": "rev/comp/revcomp op lines: in-place, copying-on-owned and copying-on-slice forms, each applied once and twice, comp∘rev vs rev∘comp, "
                 "7 codecs for reverse / 5 complementable codecs, lengths {0..3} + word-boundary lengths, slices at every reachable bit offset, "
                 "random values from every production route; the harness also checks that the receiver of a copying form is unchanged; "
